@@ -121,22 +121,7 @@ def run(ctx):
         if "input_byte_offset" not in d:
             r.violate(f"{c.key}|Attributes::new", f"Attributes::new is given `{d}` as the document offset of the tag's input, expected lexeme.input_byte_offset()", c.loc())
 
-    # ------------------------------------------------------------------ R14.4
-    r = ctx.rule("R14.4", "ranges survive the dropping of a consumed prefix: Align completeness (shared with C02 R02.2) for the token outline types", "E-MIR (type-driven)", floor=6)
-    ti = TypeInfo(mir)
-    for f2 in mir.fns:
-        if f2.trait != "Align" or mir.is_test_fn(f2) or f2.closure_suffix or f2.owner not in ti.adts:
-            continue
-        adt = ti.adts[f2.owner]
-        actual = set(p for p in (receiver_path(f2, t) for bi, t in f2.calls(r"align\[Align\]$|Align::align$")) if p)
-        for v in adt["variants"]:
-            for fld in v["fields"]:
-                owner = v["name"] if adt["enum"] else f2.owner
-                for leaf in ti.leaves(fld["ty"], owner + "." + fld["name"]):
-                    key = f"{f2.owner}|{leaf}"
-                    r.inst(key)
-                    if leaf not in actual:
-                        r.violate(key, f"impl Align for {f2.owner} does not re-base `{leaf}`: source locations / names derived from it would be wrong after a chunk boundary", f2.loc())
+    rule_align_complete(ctx, mir)
 
     # ------------------------------------------------------------------ R14.5
     r = ctx.rule("R14.5", "rewriting does not change a token's reported location: set_modified keeps the original length", "E-MIR", floor=2)
@@ -254,3 +239,23 @@ def run(ctx):
     return ("Offset-carrying clauses: where document offsets are added (lexeme, attributes), who advances the document offset and by what, "
             "type-driven Align completeness, length preservation of modified tokens, and the contiguity protocol of text-chunk locations "
             "in the text decoder (CFG dominance + operand identity).")
+
+
+def rule_align_complete(ctx, mir, rid="R14.4"):
+    # ------------------------------------------------------------------ R14.4
+    r = ctx.rule(rid, "ranges survive the dropping of a consumed prefix: Align completeness (shared with C02 R02.2) for the token outline types", "E-MIR (type-driven)", floor=6)
+    ti = TypeInfo(mir)
+    for f2 in mir.fns:
+        if f2.trait != "Align" or mir.is_test_fn(f2) or f2.closure_suffix or f2.owner not in ti.adts:
+            continue
+        adt = ti.adts[f2.owner]
+        actual = set(p for p in (receiver_path(f2, t) for bi, t in f2.calls(r"align\[Align\]$|Align::align$")) if p)
+        for v in adt["variants"]:
+            for fld in v["fields"]:
+                owner = v["name"] if adt["enum"] else f2.owner
+                for leaf in ti.leaves(fld["ty"], owner + "." + fld["name"]):
+                    key = f"{f2.owner}|{leaf}"
+                    r.inst(key)
+                    if leaf not in actual:
+                        r.violate(key, f"impl Align for {f2.owner} does not re-base `{leaf}`: source locations / names derived from it would be wrong after a chunk boundary", f2.loc())
+
